@@ -7,6 +7,10 @@ from adcgen.tensor_names import tensor_names as tn
 
 from .. import adapter, build, events, oracle
 from ..runner import guarded
+from functools import partial
+
+# derivations are long single calls: their own time limit
+guarded = partial(guarded, call_timeout=900)      # DERIVATION
 
 CLS = {"ph": 1, "pphh": 2, "h": 1, "phh": 2, "p": 1, "pph": 2, "hh": 1,
        "phhh": 2, "pp": 1, "pphhh": 0, "ppph": 2}
